@@ -162,7 +162,9 @@ def check_config(ctx, drv, cfg, L2, max_index, case_out=None):
             tags["reeval_error"] = ("same" if (after["error"] == before["error"] or (math.isnan(after["error"]) and math.isnan(before["error"])))
                                     else ("doubled" if after["error"] == 2 * before["error"] else "other"))
             new_sum = None
+            area_size = 0.0     # size of the summands the results are formed from (results may be pure cancellation noise)
             if "areas" in info:
+                area_size = sum(abs(x) for a in info["areas"] for x in a)
                 new_sum = [sum(a[k] for a in info["areas"][info["start_new"]:]) for k in range(len(before["result"]))]
             ctx.count("reentrant_%s_%s" % (cfg["strategy"], reent))
             if not reent and "areas" in info and len(before["result"]) >= 1:
@@ -241,7 +243,7 @@ def check_config(ctx, drv, cfg, L2, max_index, case_out=None):
                 # is the difference exactly "the areas that were new at the interruption were added a second time"?
                 tags["delta_is_new_areas"] = bool(new_sum is not None and set(differs) <= {"result", "evaluations"} and
                                                   vec_close([a - b for a, b in zip(res2, res0)], new_sum,
-                                                            unit=max([abs(x) for x in res0 + res2] + [0.0])))
+                                                            unit=max([abs(x) for x in res0 + res2] + [0.0]) + area_size))
                 ok = not ctx.violation("resume-vs-single", dict(tags, differs="+".join(differs)), sub,
                               {"differs": differs, "single": {"result": res0, "points": pts0, "evaluations": ev0, "stream_points": [x[1] for x in stream]},
                                "resumed": {"result": res2, "points": pts2, "evaluations": ev2, "points_array": [int(x) for x in r2[6]]},
